@@ -167,6 +167,9 @@ class Program:
         self.record_classes = {}        # component names -> record classes constructed with them
         self.owned = {}                 # (class, field) -> private collaborator class constructed into that field
         self.record_field_names = {}    # (class, field) -> component names of a record-valued field
+        self.list_literals = set()  # sites of `[...]` displays (the term shape is shared with list(x))
+        self.list_models = {}       # list object -> (loop id, iterated term, initial items, value appended per iteration)
+        self.genobjs = {}           # site -> (call node, bound arguments) of generator objects created but not yet run
         self.closures = {}          # site -> nested function definition + defining scope
 
     def _base_name(self, m, b):
@@ -493,6 +496,21 @@ def _is_bool(c):
     if c[0] in ("and", "or"):
         return all(_is_bool(x) for x in c[1])
     return False
+
+
+def truth(c):
+    """The condition `bool(c)` for a selection with a constant arm: `x if c else None` is true iff c and x."""
+    if isinstance(c, tuple) and c and c[0] == "gate":
+        ta, tb = const_truth(c[2]), const_truth(c[3])
+        if tb is False:
+            return ("and", (c[1], truth(c[2])))
+        if tb is True:
+            return ("or", (negate(c[1]), truth(c[2])))
+        if ta is False:
+            return ("and", (negate(c[1]), truth(c[3])))
+        if ta is True:
+            return ("or", (c[1], truth(c[3])))
+    return c
 
 
 def negate_const(c):
@@ -1006,6 +1024,7 @@ class Summariser:
         self.exits = []             # [(branch facts, field state)] at every `return` of this function
         self.loop_marks = []        # [(len(facts) at loop entry, [jump snapshots])]
         self.self_name = None
+        self.list_frames = []       # per active loop: bookkeeping of lists filled by the loop body
         self.field_prefix = ""      # "<field>." while a method of an owned collaborator object is inlined
         self.on_yield = None        # consumer callback while a generator body is run for its `for` loop / `with`
         self.loop_iters = {}        # loop id -> iterated term (for comprehensions over generators)
@@ -1120,7 +1139,7 @@ class Summariser:
         for i, st in enumerate(stmts):
             rest = stmts[i + 1:]
             if isinstance(st, ast.If):
-                cond = self.expr(st.test, events)
+                cond = truth(self.expr(st.test, events))
                 # does the test re-evaluate state here (calls / attribute or item reads), or only look at
                 # values computed earlier (plain names)?
                 fresh = any(isinstance(n, (ast.Call, ast.Attribute, ast.Subscript)) for n in ast.walk(st.test))
@@ -1283,6 +1302,14 @@ class Summariser:
         elif isinstance(st, ast.AnnAssign):
             if st.value is not None:
                 self.assign(st.target, self.expr(st.value, events), events, st)
+        elif isinstance(st, ast.AugAssign) and isinstance(st.op, (ast.BitOr, ast.BitAnd, ast.BitXor)) and \
+                isinstance(st.target, ast.Name) and st.target.id in self.env and \
+                self.env[st.target.id][0] in ("sub", "param", "field0", "new", "res", "elem", "tget", "attr", "comp"):
+            # `d |= other` on an object (dict / set): the object itself is changed, the name keeps denoting it
+            cur = self.expr(st.target, events)
+            rhs = self.expr(st.value, events)
+            meth = {ast.BitOr: "update", ast.BitAnd: "intersection_update", ast.BitXor: "symmetric_difference_update"}[type(st.op)]
+            events.append(Mut(cur, meth, (rhs,), (), ("res", self.site(st), "." + meth, (cur, rhs), ()), st.lineno))
         elif isinstance(st, ast.AugAssign):
             cur = self.expr(st.target, events)
             val = ("op", BINOPS[type(st.op)], cur, self.expr(st.value, events))
@@ -1428,10 +1455,21 @@ class Summariser:
         elem_val = ("elem", lid)
         if not is_while and isinstance(st.iter, ast.Call) and not st.orelse and self._generator_loop(st, events):
             return
+        if not is_while and isinstance(st.iter, ast.Name) and self.env.get(st.iter.id, ("?",))[0] == "genobj" and \
+                self.env[st.iter.id][1] in self.prog.genobjs and not st.orelse and \
+                self._generator_loop(st, events, self.prog.genobjs[self.env[st.iter.id][1]]):
+            return
         if not is_while:
             it = self.expr(st.iter, events)
             if self._unrollable(st, it):
                 return self.unroll(st, it, events)
+            if it[0] == "fn" and it[1] == "zip" and len(it[2]) == 2 and it[2][1] in self.prog.list_models:
+                l1, it1, init1, v1 = self.prog.list_models[it[2][1]]
+                if it1 == it[2][0] and not init1:
+                    # zip(S, B) with B holding one value per element of S (appended by the earlier loop over S):
+                    # this loop walks S again, pairing each element with the value computed for it then
+                    elem_val = ("tuple", (("elem", lid), subst(v1, {("elem", l1): ("elem", lid)})))
+                    it = it[2][0]
             # for x in (f(y) for y in ys): ...   is   for y in ys: x = f(y); ...   when f(y) has no effects
             while isinstance(st.iter, (ast.GeneratorExp, ast.ListComp)) and \
                     it[0] == "comp" and it[1] in ("gen", "list") and it[4] is None and not it[6] and it[5][0] != "flat" \
@@ -1447,8 +1485,17 @@ class Summariser:
         # a component that every iteration hands on unchanged is the value it had before the loop
         nosplit, invariant = set(), set()
         test_events = []
-        for attempt in range(4):
+        list_facts = {}
+        enum_start = None
+        if not is_while and it[0] == "fn" and it[1] == "enumerate" and it[2]:
+            st_arg = next((a[2] for a in it[2][1:] if isinstance(a, tuple) and a and a[0] == "kw" and a[1] == "start"),
+                          it[2][1] if len(it[2]) > 1 and it[2][1][0] == "const" else ("const", 0))
+            enum_start = st_arg[1] if st_arg[0] == "const" and isinstance(st_arg[1], int) else None
+        for attempt in range(5):
             self.env, self.fields, self.exits = dict(env0), dict(f0), list(exits0)
+            frame = {"lid": lid, "facts": len(self.facts), "stack": len(self.stack), "lists": {}, "done": set(),
+                     "wanted": set(), "facts_in": dict(list_facts), "enum_start": enum_start, "prev": {}}
+            self.list_frames.append(frame)
             split = {n: len(env0[n][1]) for n in carried_n
                      if n not in nosplit and env0[n][0] == "tuple" and len(env0[n]) == 2 and 2 <= len(env0[n][1]) <= 4}
             for n in carried_n:
@@ -1468,7 +1515,10 @@ class Summariser:
             old_loops = self.loops
             self.loops = self.loops + (lid,)
             self.loop_marks.append((len(self.facts), []))
-            ev, term, ret = self.block(st.body)
+            try:
+                ev, term, ret = self.block(st.body)
+            finally:
+                self.list_frames.pop()
             self.loops = old_loops
             _, jumps = self.loop_marks.pop()
             if term and not jumps:
@@ -1506,10 +1556,20 @@ class Summariser:
                         carried[f"{n}#{i}"] = (env0[n][1][i], nxt[1][i])
                 else:
                     carried[n] = (env0[n], nxt)
+            new_facts = {b: r["value"] for b, r in frame["lists"].items()
+                         if r["n"] == 1 and not r["cond"] and not r["other"]}
+            if set(new_facts) != set(list_facts) and (set(new_facts) & frame["wanted"] or set(list_facts) - set(new_facts)):
+                retry = True
+            list_facts = new_facts
+            for b, (pname, pinit, pnext) in frame["prev"].items():
+                carried[pname] = (pinit, pnext)
             if not retry:
+                for b, v in new_facts.items():
+                    inner = it[2][0] if (not is_while and it[0] == "fn" and it[1] == "enumerate" and it[2]) else it
+                    self.prog.list_models[b] = (lid, inner, b[3], v)
                 break
         else:
-            raise Unsupported(f"loop-carried tuple does not stabilise at {self.module.path}:{st.lineno}")
+            raise Unsupported(f"loop-carried state does not stabilise at {self.module.path}:{st.lineno}")
         events.extend(test_events)
         for f in fields:
             carried["self." + f] = (f0.get(f, ("field0", f)),
@@ -1531,6 +1591,68 @@ class Summariser:
             self.fields[f] = ("eta", lid, "self." + f)
         if st.orelse:
             raise Unsupported(f"for-else at {self.module.path}:{st.lineno}")
+
+    # -- lists filled by a loop, one element per iteration ------------------------------------------------
+    def _note_list_mutation(self, recv, meth, args):
+        if not self.list_frames or not (recv[0] == "new" and recv[2] == "list" and recv[1] in self.prog.list_literals):
+            return
+        fr = self.list_frames[-1]
+        created_inside = fr["lid"] in (site_loops(recv) or ())
+        if created_inside:
+            return
+        rec = fr["lists"].setdefault(recv, {"n": 0, "cond": False, "value": None, "other": False})
+        if meth != "append" or len(args) != 1:
+            rec["other"] = True
+            return
+        rec["n"] += 1
+        rec["value"] = args[0]
+        if len(self.facts) > fr["facts"] or self.loops[-1:] != (fr["lid"],) or len(self.stack) != fr["stack"]:
+            rec["cond"] = True          # under a branch, in a nested loop, or inside an inlined helper
+        else:
+            fr["done"].add(recv)
+
+    def _list_element(self, base, idx):
+        """B[k] / B[k-1] inside the loop that appends one element to B per iteration, k the enumeration index."""
+        if not self.list_frames or not (base[0] == "new" and base[2] == "list" and base[1] in self.prog.list_literals):
+            return None
+        fr = self.list_frames[-1]
+        if fr["lid"] in (site_loops(base) or ()):
+            return None
+        fr["wanted"].add(base)
+        v = fr["facts_in"].get(base)
+        if v is None or base not in fr["done"] or fr["enum_start"] is None:
+            return None
+        k = ("tget", ("elem", fr["lid"]), 0)
+
+        def offset(t):
+            if t == k:
+                return 0
+            if t[0] == "op" and t[1] in ("+", "-") and t[2] == k and t[3][0] == "const" and isinstance(t[3][1], int):
+                return t[3][1] if t[1] == "+" else -t[3][1]
+            return None
+        n0 = len(base[3])
+        if idx[0] == "const" and isinstance(idx[1], int) and not isinstance(idx[1], bool) and 0 <= idx[1] < n0:
+            return base[3][idx[1]]                      # an initial element: appends never move it
+        if idx[0] == "slice" and idx[2] == ("const", None) and idx[3] == ("const", None):
+            # B[k+c:] right after this iteration's append: the last one or two elements
+            c = offset(idx[1])
+            if c is None:
+                return None
+            if c == n0 - fr["enum_start"]:
+                return ("tuple", (v,))
+            if c == n0 - fr["enum_start"] - 1 and n0 >= 1:
+                return ("tuple", (self._list_element(base, idx[1]), v))
+            return None
+        c = offset(idx)
+        if c is None:
+            return None
+        if c == n0 - fr["enum_start"]:
+            return v                                    # the element appended in this iteration
+        if c == n0 - fr["enum_start"] - 1 and n0 >= 1:
+            name = f"#prev:{len(fr['prev'])}" if base not in fr["prev"] else fr["prev"][base][0]
+            fr["prev"].setdefault(base, (name, base[3][-1], v))
+            return ("mu", fr["lid"], fr["prev"][base][0])   # the element appended by the previous iteration
+        return None
 
     def _with_contextmanager(self, st, events):
         """`with cm(...) as v: body` for a package function decorated with contextlib.contextmanager that
@@ -1563,7 +1685,7 @@ class Summariser:
             return None
         return bool(state.get("term")), state.get("ret")
 
-    def _generator_loop(self, st, events):
+    def _generator_loop(self, st, events, genobj=None):
         """`for v in gen(...): body` with gen a package generator function: the body runs at each yield."""
         if any(isinstance(n, (ast.Break, ast.Continue, ast.Return, ast.Yield, ast.YieldFrom))
                for b in st.body for n in ast.walk(b)):
@@ -1579,6 +1701,8 @@ class Summariser:
             if term:
                 raise Unsupported(f"terminating loop body at {self.module.path}:{st.lineno}")
             return ev
+        if genobj is not None:
+            return self.run_generator(genobj[0], events, consumer, params=dict(genobj[1])) is not None
         return self.run_generator(st.iter, events, consumer) is not None
 
     @staticmethod
@@ -1817,6 +1941,9 @@ class Summariser:
                 elif idx[0] in ("cmp", "not") and set(table) == {True, False} and len(base[1]) == 2 and \
                         all(type(k[1]) is bool for k, _ in base[1]):
                     return gate(idx, table[True], table[False])     # a two-way dispatch on a boolean
+            got = self._list_element(base, idx)
+            if got is not None:
+                return got
             return ("sub", base, idx)
         if isinstance(e, ast.Slice):
             return ("slice", self._expr(e.lower, events), self._expr(e.upper, events), self._expr(e.step, events))
@@ -1825,6 +1952,8 @@ class Summariser:
             items = tuple(self._expr(x, events) for x in e.elts)
             if kind == "tuple":
                 return ("tuple", items)
+            if kind == "list":
+                self.prog.list_literals.add(self.site(e))
             return ("new", self.site(e), kind, items)
         if isinstance(e, ast.Dict):
             entries = []
@@ -2055,6 +2184,9 @@ class Summariser:
                 return self._construct(r[1], args, kwargs, events, e)
             if r and r[0] == "ext":
                 d = r[1]
+            elif r is None and f.id in ("list", "set", "dict", "tuple", "sorted", "sum", "max", "min", "any", "all") and \
+                    len(args) >= 1 and args[0][0] == "genobj" and args[0][1] in self.prog.genobjs:
+                return self.consume_genobj(args[0], f.id, events, e)
             elif r is None and f.id in FRESH_BUILTINS:
                 if f.id in ("list", "set") and len(args) == 1 and not kwargs and args[0][0] == "comp" and args[0][1] == "gen":
                     return ("comp", f.id) + args[0][2:]        # list(<genexp>) is the list comprehension
@@ -2062,6 +2194,10 @@ class Summariser:
             elif r is None and f.id in PURE_BUILTINS:
                 if f.id == "bool" and len(args) == 1 and not kwargs and _is_bool(args[0]):
                     return args[0]
+                if f.id == "getattr" and len(args) in (2, 3) and not kwargs and args[0] == ("self",) and \
+                        args[1][0] == "const" and isinstance(args[1][1], str) and self.cls is not None and \
+                        self.prog.find_method(self.cls, args[1][1])[1] is None:
+                    return self.field(self.fname(args[1][1]))       # getattr(self, "name"[, default]) reads the field
                 if f.id == "zip" and not kwargs and len(args) >= 2:
                     z = _zip_displays(args)
                     if z is not None:
@@ -2129,6 +2265,7 @@ class Summariser:
             res = ("res", self.site(e), "." + f.attr, (recv,) + args, kwargs)
             if f.attr in MUTATORS:
                 events.append(Mut(recv, f.attr, args, kwargs, res, line))
+                self._note_list_mutation(recv, f.attr, args)
             else:
                 events.append(Call("method", f.attr, recv, args, kwargs, res, line))
             if f.attr == "copy" and not args:
@@ -2226,7 +2363,7 @@ class Summariser:
                 params[kw.arg] = self._expr_const(dflt, _defaults_of)
         return params
 
-    def run_generator(self, call, events, consumer, split_at=None, stop=None):
+    def run_generator(self, call, events, consumer, split_at=None, stop=None, params=None):
         """Run the body of the generator function called by `call`; at every `yield`, `consumer(value)`
         (which returns the consumer's events) runs in this summariser, inside the generator's loops and
         branch facts.  Returns (sub summariser, Inlined event) or None if `call` is not such a call."""
@@ -2249,9 +2386,10 @@ class Summariser:
                 if isinstance(p, (ast.Try, ast.While, ast.With)):
                     return None
                 p = parents.get(p)
-        args = tuple(self._expr(a, events) for a in call.args)
-        kwargs = tuple((k.arg if k.arg is not None else "**", self._expr(k.value, events)) for k in call.keywords)
-        params = self._bind_args(fn, args, kwargs, is_method, call)
+        if params is None:
+            args = tuple(self._expr(a, events) for a in call.args)
+            kwargs = tuple((k.arg if k.arg is not None else "**", self._expr(k.value, events)) for k in call.keywords)
+            params = self._bind_args(fn, args, kwargs, is_method, call)
         sub = Summariser(self.prog, module, self.cls if is_method else None, fn, params=params, fields=self.fields,
                          depth=self.depth + 1, ids=self.ids,
                          stack=self.stack + (f"{call.lineno}:{call.col_offset}",), loops=self.loops,
@@ -2286,9 +2424,52 @@ class Summariser:
         events.append(inl)
         return sub, inl
 
+    def consume_genobj(self, g, kind, events, e):
+        """dict(g) / list(g) / sum(g) ... for a generator object g: the generator body runs here."""
+        call, params = self.prog.genobjs[g[1]]
+        got = []
+        depth = len(self.loops)
+
+        def consumer(val, gen, yst):
+            got.append((val, tuple(gen.loops[depth:]), gen))
+            return []
+        res = self.run_generator(call, events, consumer, params=dict(params))
+        if res is None:
+            raise Unsupported(f"generator object consumed at {self.module.path}:{e.lineno}")
+        if len(got) == 1 and len(got[0][1]) == 1 and got[0][1][0] in got[0][2].loop_iters:
+            v, (lid,), gen = got[0]
+            it = gen.loop_iters[lid]
+            if kind == "dict" and v[0] == "tuple" and len(v[1]) == 2:
+                return norm_comp(("comp", "dict", lid, it, v[1][0], v[1][1], ()))
+            if kind in ("list", "set"):
+                return norm_comp(("comp", kind, lid, it, None, v, ()))
+            if kind in ("sum", "max", "min", "any", "all", "sorted", "tuple"):
+                return ("fn", kind, (norm_comp(("comp", "gen", lid, it, None, v, ())),))
+        return ("res", self.site(e), f"builtins.{kind}", (g,), ())
+
     def generator_display(self, call, events):
         """gen(...) used as a value where every yield of gen lies outside loops: the tuple display of the
         yielded values, a selection between displays when yields are conditional; None if not applicable."""
+        target = self._callee_def(call)
+        if target is not None:
+            c, module, fn, is_method = target
+            parents = {}
+            for n in ast.walk(fn):
+                for ch in ast.iter_child_nodes(n):
+                    parents[ch] = n
+            looped = False
+            for y in self._yields(fn):
+                q = parents.get(y)
+                while q is not None and q is not fn:
+                    looped = looped or isinstance(q, (ast.For, ast.While))
+                    q = parents.get(q)
+            if looped and fn not in self.fnstack:
+                # a generator object: the arguments are evaluated now, the body runs where the object is consumed
+                args = tuple(self._expr(a, events) for a in call.args)
+                kwargs = tuple((k.arg if k.arg is not None else "**", self._expr(k.value, events)) for k in call.keywords)
+                key = self.site(call)
+                self.prog.genobjs[key] = (call, self._bind_args(fn, args, kwargs, is_method, call))
+                return ("genobj", key)
         got = []
         base = len(self.facts)
         depth = len(self.loops)
